@@ -869,6 +869,22 @@ class Dict(dict, base.Symbolic, pg_typing.CustomTyping):
     self.update(other)
     return self
 
+  def __or__(self, other) -> 'Dict':
+    """Returns a new Dict of the items of self updated by other (`d | other`)."""
+    if not isinstance(other, dict):
+      return NotImplemented
+    merged = dict(self.sym_items())
+    merged.update(other.sym_items() if isinstance(other, Dict) else other)
+    return Dict(merged, value_spec=self._value_spec)
+
+  def __ror__(self, other) -> 'Dict':
+    """Returns a new Dict of the items of other updated by self (`other | d`)."""
+    if not isinstance(other, dict):
+      return NotImplemented
+    merged = dict(other)
+    merged.update(self.sym_items())
+    return Dict(merged)
+
   def sym_jsonify(
       self,
       hide_frozen: bool = True,
